@@ -12,33 +12,48 @@
 //	          re-created from disk (real syncChanStates / channel_reestablish)
 //	rb        Bob's switch and links restart on the same databases
 //
-// The default continuation is "deliver the globally oldest message, T when nothing is in
-// flight"; anything else is a deviation. The DFS (shared explore engine, one worker
-// goroutine inside the bubble) enumerates every schedule with at most Dev deviations
-// and at most Faults fault events; canonical states are de-duplicated.
+//	fz:X>Y    wire X>Y becomes slow: none of its messages is delivered until un:X>Y
+//	un:X>Y    (default once nothing else can happen, a deviation when done earlier)
+//
+// The default continuation is "launch a due payment; else deliver the globally oldest
+// deliverable message; else tick until two ticks changed nothing; else unfreeze; else
+// resolve an accepted hold invoice; else stop". Anything else is a deviation: a
+// *schedule deviation* (out-of-order delivery, early tick, early hold resolution, fz, early
+// un) or a *fault* (cut, rb). A space fixes a payment batch and the budgets
+// (Dev schedule deviations, Faults faults, Total of both); the world itself enforces the
+// budgets through Enabled(), the shared explore engine (one worker goroutine inside the
+// bubble, MaxDeviations=-1) then enumerates *every* schedule within them, de-duplicating
+// canonical states. Large spaces are sharded over worker processes by (slow wire, fault kind).
 //
 // Time. All timers of the fixture live on the bubble's virtual clock, which only moves
-// when the explorer sleeps. bbolt's Batch (10 ms timer) makes handlers stall on the
-// virtual clock, so "T" is also what lets stalled handlers finish. The explorer's
-// instants are t0 + 25 ms + k*50 ms; initial links tick at t0 + k*50 ms, links created by
-// a fault at explorer instants: handler chains (10 ms steps from an explorer instant)
-// therefore never coincide with a tick of the initial links, and only a chain of five
-// consecutive Batch calls could coincide with a tick of a re-created link (not observed;
-// it would surface as a replay divergence, never as a violation).
+// when the explorer sleeps: during "T" (one batch-ticker period), at the end of a fault
+// event (re-alignment to the next explorer instant) and in the terminal drain (20 s steps,
+// past the switch's 10/15 s tickers). Handlers themselves take no virtual time (the
+// fixture's kvdb.Batch degrades to Update because *channeldb.DB is not a BatchDB), so after
+// synctest.Wait() the system is quiescent in the strong sense: nothing happens until the
+// next explorer event. Explorer instants are t0 + 25 ms + k*50 ms; the initial links tick at
+// t0 + k*50 ms, links re-created by a fault tick at explorer instants.
 //
 // Canonical key ("same key => same futures"): every commitment either end of both
 // channels holds (heights, balances, HTLC sets by payment), pending-update counters,
 // circuit-map counts of the three switches, payment results, invoice states, the four
-// wires (kind, htlc id, payment), forwarding-package progress on disk, the explorer's
+// wires (kind, htlc id, payment), forwarding-package progress on disk (completed packages
+// excepted: when the background collector deletes them is irrelevant garbage), the explorer's
 // own counters (faults used, idle ticks, payments not yet launched, per-payment
 // bookkeeping of the oracle). Dropped: signatures, revocation secrets, channel ids and
 // payment ids (random or functions of the rest), mailbox contents (re-derivable from
 // circuits + forwarding packages + channel state, which are in the key) and the absolute
 // virtual time (ticker phases relative to explorer instants are fixed, see above).
 //
-// Determinism gate: fixed event lists are replayed 20x in fresh processes and must give
-// byte-identical observation traces; every candidate violation is replayed 3x in fresh
-// processes and is reported only if the three replays agree with the exploration run.
+// Determinism. (1) gate: fixed event lists are replayed 20x (4 fresh processes x 5
+// networks) and must give byte-identical observation traces, else the run stops without a
+// verdict; (2) self-check of the exploration: the key reached by every history is
+// remembered and every later replay of that history must reach the same key at every step
+// (replayed_steps_key_checked / replay_divergences in the evidence); (3) every candidate
+// violation is replayed 3x in fresh processes and reported only if all three agree. Two
+// sources of scheduler dependence were found this way and are owned: the add/response race
+// in the mailbox (world_test.go ownRace) and the deletion time of completed forwarding
+// packages (excluded from the key).
 package htlcswitch
 
 import (
@@ -89,27 +104,30 @@ type c08Result struct {
 	Mode string `json:"mode"`
 	Name string `json:"name"`
 	// explore
-	States      int64            `json:"states"`
-	Transitions int64            `json:"transitions"`
-	Replays     int64            `json:"replays"`
-	ReplaySteps int64            `json:"replay_steps"`
-	Terminals   int64            `json:"terminals"`
-	MaxDepth    int              `json:"max_depth"`
-	Exhaustive  bool             `json:"exhaustive"`
-	CapHit      string           `json:"cap_hit,omitempty"`
-	Outcomes    map[string]int   `json:"outcomes,omitempty"`
-	Clauses     map[string]int64 `json:"clauses,omitempty"`
-	Viols       []c08FoundViol   `json:"viols,omitempty"`
-	Sample      []string         `json:"sample,omitempty"`
-	Recheck     int              `json:"recheck"`
-	RecheckBad  int              `json:"recheck_bad"`
-	Dead        []string         `json:"dead,omitempty"`
-	WallS       float64          `json:"wall_s"`
+	States       int64          `json:"states"`
+	Transitions  int64          `json:"transitions"`
+	Replays      int64          `json:"replays"`
+	ReplaySteps  int64          `json:"replay_steps"`
+	Terminals    int64          `json:"terminals"`
+	MaxDepth     int            `json:"max_depth"`
+	Exhaustive   bool           `json:"exhaustive"`
+	CapHit       string         `json:"cap_hit,omitempty"`
+	Outcomes     map[string]int `json:"outcomes,omitempty"`
+	Viols        []c08FoundViol `json:"viols,omitempty"`
+	Sample       []string       `json:"sample,omitempty"`
+	Recheck      int            `json:"recheck"`
+	StepsChecked int64          `json:"steps_checked"`
+	Divergences  int64          `json:"divergences"`
+	DivergeAt    []string       `json:"diverge_at,omitempty"`
+	RecheckBad   int            `json:"recheck_bad"`
+	Dead         []string       `json:"dead,omitempty"`
+	WallS        float64        `json:"wall_s"`
 	// replay
-	Traces  []string   `json:"traces,omitempty"` // one observation-trace hash per repetition
-	Obs     []string   `json:"obs,omitempty"`    // observation trace of the first repetition
+	Traces  []string    `json:"traces,omitempty"` // one observation-trace hash per repetition
+	Obs     []string    `json:"obs,omitempty"`    // observation trace of the first repetition
 	RViols  [][]c08Viol `json:"rviols,omitempty"`
-	Outcome []string   `json:"outcome,omitempty"`
+	Outcome []string    `json:"outcome,omitempty"`
+	AllObs  [][]string  `json:"all_obs,omitempty"` // debugging aid (VERIF_C08_ALLOBS)
 }
 
 func c08Wall() float64 {
@@ -123,6 +141,45 @@ type c08Adapter struct {
 	*c08World
 	res *c08Result
 	mu  *sync.Mutex
+	// determinism self-check of the exploration: the canonical key reached by a
+	// history is remembered (hash -> hash); every later replay of that history, at every
+	// step, must reach the same key.
+	hk *map[[16]byte][16]byte
+	hh [16]byte
+}
+
+// c08KeyDebug (VERIF_C08_KEYDEBUG=1) keeps the full keys so that a divergence can be shown.
+var c08KeyDebug map[[16]byte]string
+
+func (a *c08Adapter) checkStep(act string) {
+	h := sha256.New()
+	h.Write(a.hh[:])
+	h.Write([]byte(act))
+	copy(a.hh[:], h.Sum(nil))
+	key := a.c08World.Key()
+	k := sha256.Sum256([]byte(key))
+	var kk [16]byte
+	copy(kk[:], k[:16])
+	a.mu.Lock()
+	defer a.mu.Unlock()
+	a.res.StepsChecked++
+	if old, ok := (*a.hk)[a.hh]; ok {
+		if old != kk {
+			a.res.Divergences++
+			if len(a.res.DivergeAt) < 3 {
+				d := strings.Join(a.c08World.hist, " ")
+				if c08KeyDebug != nil {
+					d += "\n   first: " + c08KeyDebug[a.hh] + "\n   now:   " + key
+				}
+				a.res.DivergeAt = append(a.res.DivergeAt, d)
+			}
+		}
+		return
+	}
+	(*a.hk)[a.hh] = kk
+	if c08KeyDebug != nil {
+		c08KeyDebug[a.hh] = key
+	}
 }
 
 func (a *c08Adapter) Terminal() {
@@ -161,6 +218,9 @@ func (a *c08Adapter) collect(terminal bool) {
 
 func (a *c08Adapter) Do(act string) error {
 	err := a.c08World.Do(act)
+	if err == nil {
+		a.checkStep(act)
+	}
 	if len(a.c08World.viols) > 0 || a.c08World.dead != "" {
 		a.collect(false)
 	}
@@ -191,20 +251,9 @@ func c08RunHist(t *testing.T, scn c08Scn, hist []string, dir string, info func(s
 		if w.dead != "" {
 			break
 		}
-		en := w.Enabled()
-		ok := false
-		for _, e := range en {
-			if e == a {
-				ok = true
-			}
-		}
-		if !ok {
-			w.Close()
-			return nil, fmt.Errorf("history diverged at step %d: %s not enabled (enabled: %v)", i, a, en)
-		}
 		if err := w.Do(a); err != nil {
 			w.Close()
-			return nil, err
+			return nil, fmt.Errorf("history diverged at step %d: %v", i, err)
 		}
 	}
 	// default continuation to the end
@@ -239,7 +288,7 @@ func c08Worker(t *testing.T) {
 		scratch = os.TempDir()
 	}
 	base, _ := os.MkdirTemp(scratch, "c08w")
-	res := &c08Result{Mode: job.Mode, Name: job.Scn.Name, Outcomes: map[string]int{}, Clauses: map[string]int64{}}
+	res := &c08Result{Mode: job.Mode, Name: job.Scn.Name, Outcomes: map[string]int{}}
 	finish := func() {
 		res.WallS = c08Wall() - start
 		ob, _ := json.Marshal(res)
@@ -262,7 +311,10 @@ func c08Worker(t *testing.T) {
 				if job.Verbose && r == 0 {
 					info = func(s string) { fmt.Printf("INFO %s\n", s) }
 					lg := btclog.NewSLogger(btclog.NewDefaultHandler(c08LndLog{}, btclog.WithNoTimestamp()))
-					lg.SetLevel(btclog.LevelDebug)
+					lg.SetLevel(btclog.LevelInfo)
+					if os.Getenv("VERIF_C08_LNDLOG") == "debug" {
+						lg.SetLevel(btclog.LevelDebug)
+					}
 					UseLogger(lg)
 				} else {
 					DisableLog()
@@ -282,12 +334,19 @@ func c08Worker(t *testing.T) {
 				if r == 0 {
 					res.Obs = append([]string{}, w.obs...)
 				}
+				if os.Getenv("VERIF_C08_ALLOBS") != "" {
+					res.AllObs = append(res.AllObs, append([]string{}, w.obs...))
+				}
 				res.RViols = append(res.RViols, append([]c08Viol{}, w.viols...))
 				res.Outcome = append(res.Outcome, w.outcome())
 				w.Close()
 			}
 		case "explore":
 			var mu sync.Mutex
+			hk := map[[16]byte][16]byte{}
+			if os.Getenv("VERIF_C08_KEYDEBUG") != "" {
+				c08KeyDebug = map[[16]byte]string{}
+			}
 			deadline := start + job.BudgetS
 			var firstTerminal []string
 			r := explore.Run(explore.Options{
@@ -299,15 +358,22 @@ func c08Worker(t *testing.T) {
 						}
 						return nil, err
 					}
-					return &c08Adapter{w, res, &mu}, nil
+					return &c08Adapter{c08World: w, res: res, mu: &mu, hk: &hk}, nil
 				},
 				MaxDeviations: -1, // the world enforces the budgets itself
 				Workers:       1,
 				Stop:          func() bool { return job.BudgetS > 0 && c08Wall() > deadline },
 			}, func(hist []string, v any) {
 				mu.Lock()
-				if len(res.Dead) < 5 {
-					res.Dead = append(res.Dead, fmt.Sprintf("panic in explorer: %v @ %v", c08Short(fmt.Sprint(v)), hist))
+				msg := fmt.Sprint(v)
+				if strings.Contains(msg, "replay diverged") || strings.Contains(msg, "is not enabled here") {
+					// a recorded history could not be replayed: hidden nondeterminism
+					res.Divergences++
+					if len(res.DivergeAt) < 3 {
+						res.DivergeAt = append(res.DivergeAt, c08Short(msg)+" @ "+strings.Join(hist, " "))
+					}
+				} else if len(res.Dead) < 5 {
+					res.Dead = append(res.Dead, fmt.Sprintf("panic in explorer: %v @ %v", c08Short(msg), hist))
 				}
 				mu.Unlock()
 			})
@@ -452,12 +518,13 @@ func c08Spaces(thorough bool) []c08Scn {
 		nonDust  = 20000 * sat       // an output on every commitment
 		large    = 100_000_000 * sat // 1 BTC
 	)
-	var out []c08Scn
+	var out, deeps []c08Scn
 	base := func(name string, pays ...c08Pay) {
 		out = append(out, c08Scn{Name: "base/" + name, Pays: pays, Dev: 1, Faults: 1, Total: 1, Freeze: true})
 	}
 	deep := func(name string, pays ...c08Pay) {
-		out = append(out, c08Scn{Name: "deep/" + name, Pays: pays, Dev: 2, Faults: 2, Total: 2, Freeze: true})
+		// the largest single jobs: started first (see the end of this function)
+		deeps = append(deeps, c08Scn{Name: "deep/" + name, Pays: pays, Dev: 2, Faults: 2, Total: 2, Freeze: true})
 	}
 	product := func(name string, wires []string, pays ...c08Pay) {
 		faults := []string{"rb", "cut:AB", "cut:BC"}
@@ -497,8 +564,11 @@ func c08Spaces(thorough bool) []c08Scn {
 	} else {
 		for _, dirs := range [][2]string{{"AC", "AC"}, {"AC", "CA"}, {"CA", "AC"}} {
 			for _, pr := range []pair{{"valid", "valid"}, {"holdsettle", "valid"}, {"valid", "unknown"}, {"holdcancel", "valid"}} {
+				if dirs[0] == "CA" && pr.k0 != pr.k1 && pr.k0 != "holdsettle" {
+					continue // CA+AC: valid+valid and holdsettle+valid only
+				}
 				ats := []int{6}
-				if pr.k0 == "valid" && pr.k1 == "valid" && dirs[0] == "AC" {
+				if pr.k0 == "valid" && pr.k1 == "valid" && dirs[0] == "AC" && dirs[1] == "AC" {
 					ats = []int{0, 6, 14}
 				}
 				for _, at := range ats {
@@ -517,7 +587,7 @@ func c08Spaces(thorough bool) []c08Scn {
 				p := c08Pay{dir, a, k, 0}
 				twoAmts := a == dustLo || a == nonDust
 				switch {
-				case thorough && twoAmts:
+				case thorough && twoAmts && k != "wrongamt":
 					deep(pname(p), p)
 				case thorough:
 					base(pname(p), p)
@@ -546,14 +616,20 @@ func c08Spaces(thorough bool) []c08Scn {
 	dirsList := [][2]string{{"AC", "AC"}, {"AC", "CA"}}
 	if thorough {
 		pairs = append(pairs, pair{"unknown", "unknown"}, pair{"holdsettle", "holdcancel"}, pair{"wrongamt", "valid"}, pair{"holdsettle", "holdsettle"})
-		ats = []int{0, 3, 6, 10, 14, 20}
+		ats = []int{0, 3, 6, 14}
 		dirsList = append(dirsList, [2]string{"CA", "AC"}, [2]string{"CA", "CA"})
 	}
 	for _, dirs := range dirsList {
-		for _, pr := range pairs {
+		for pi, pr := range pairs {
+			if dirs[0] == "CA" && dirs[1] == "CA" && pi > 2 {
+				continue // CA+CA mirrors AC+AC: the first three pairs only
+			}
 			for _, at := range ats {
 				for _, a1 := range []int64{nonDust, dustLo} {
 					if a1 == dustLo && (at != 6 || (!thorough && pr.k0 != "valid")) {
+						continue
+					}
+					if !thorough && at == 14 && (pr.k0 != "valid" || pr.k1 != "valid") {
 						continue
 					}
 					ps := two(dirs[0], dirs[1], pr, a1, at)
@@ -562,7 +638,25 @@ func c08Spaces(thorough bool) []c08Scn {
 			}
 		}
 	}
-	return out
+	// ---- Bob lacks outgoing liquidity: he must fail back, nothing is ever committed ----
+	for _, bc := range []int64{25_000, 2_000_000} {
+		for _, k := range []string{"valid", "holdsettle"} {
+			if !thorough && (bc != 25_000 || k != "valid") {
+				continue
+			}
+			p := c08Pay{"AC", nonDust, k, 0}
+			if bc > 25_000 {
+				p.Amt = 2_000_000 * sat
+			}
+			sc := c08Scn{Name: fmt.Sprintf("base/%s/bobBC=%d", pname(p), bc), Pays: []c08Pay{p}, Dev: 1, Faults: 1, Total: 1, Freeze: true, BobBCSat: bc}
+			if thorough {
+				sc.Name = "deep" + sc.Name[4:]
+				sc.Dev, sc.Faults, sc.Total = 2, 2, 2
+			}
+			out = append(out, sc)
+		}
+	}
+	return append(deeps, out...)
 }
 
 // gate scenarios: fixed event lists (default schedule with the listed deviations)
@@ -575,6 +669,8 @@ func c08GateCases() []c08Job {
 		{Mode: "replay", Scn: c08Scn{Name: "gate/2p-default", Pays: []c08Pay{valid, back}, Faults: 2, Dev: 2}},
 		{Mode: "replay", Scn: c08Scn{Name: "gate/2p-cutBC+restartBob", Pays: []c08Pay{valid, back}, Faults: 2, Dev: 2},
 			Hist: strings.Fields("pay0 d:A>B T d:A>B d:B>A d:B>A pay1 d:A>B cut:BC d:B>C d:C>B d:C>B d:B>C T d:B>C d:C>B d:C>B d:B>C d:B>C d:C>B d:C>B rb")},
+		{Mode: "replay", Scn: c08Scn{Name: "gate/2p-slowAB+restartBob", Pays: []c08Pay{valid, {"AC", 20_000_000, "valid", 6}}, Faults: 2, Dev: 2, Freeze: true},
+			Hist: strings.Fields("pay0 d:A>B T d:A>B d:B>A d:B>A pay1 d:A>B d:A>B d:B>C T d:A>B d:B>C d:B>A d:B>A d:C>B d:C>B d:A>B d:B>C d:B>C d:C>B d:C>B d:B>A d:B>A d:B>C d:B>C fz:A>B d:C>B d:C>B d:B>C d:C>B d:C>B d:B>A d:B>C d:B>C d:C>B T T un:A>B rb")},
 		{Mode: "replay", Scn: c08Scn{Name: "gate/hold+unknown-cutAB", Pays: []c08Pay{hold, unk}, Faults: 2, Dev: 2},
 			Hist: strings.Fields("pay0 d:A>B T d:A>B pay1 d:B>A T cut:AB")},
 	}
@@ -599,6 +695,7 @@ func TestC08(t *testing.T) {
 		"goroutine interleavings inside the handling of one event are the Go scheduler's, not enumerated; what is enumerated is message order, fault position, timer order (the property's own quantifier leaves scheduling to the runtime)",
 		"the repo's three-hop fixture is used unchanged: mock onion/obfuscator, static fee estimator, no chain events; Bob's two channels live in two bbolt files (fixture artefact), so cross-channel settle/fail acks of forwarding packages are partly no-ops",
 		"faults are graceful (a link or switch stops between two events, i.e. at a point where every goroutine is blocked); crashes inside a database transaction sequence are C02/C07/C13's subject",
+		"one lnd-internal scheduler race is visible at quiescent points (when one revocation locks in adds and settles/fails destined for the same other link, the mailbox may or may not let the response overtake the add); the harness pins the add-first order by delaying settle/fail batches by nanoseconds of virtual time at the fixture's ForwardPackets closure; the response-first order is not explored",
 		"virtual time per execution stays below the 30 min fee-update timer and the 1 h mailbox/invoice expiry; HTLC expiry by block height is out of scope (no block epochs)",
 	)
 
@@ -739,12 +836,14 @@ func TestC08(t *testing.T) {
 	// ---- aggregate ----------------------------------------------------------------
 	var (
 		states, transitions, replays, steps, terminals int64
-		outcomes                                        = map[string]int{}
-		perSp                                           = map[string]any{}
-		exhaustive                                      = true
-		samples                                         = evid.NewSamples(4)
-		recheck, recheckBad                             int
-		cands                                           []struct {
+		outcomes                                       = map[string]int{}
+		perSp                                          = map[string]any{}
+		exhaustive                                     = true
+		samples                                        = evid.NewSamples(4)
+		recheck, recheckBad                            int
+		stepsChecked, divergences                      int64
+		divergeAt                                      []string
+		cands                                          []struct {
 			scn c08Scn
 			v   c08FoundViol
 		}
@@ -763,6 +862,13 @@ func TestC08(t *testing.T) {
 		terminals += r.Terminals
 		recheck += r.Recheck
 		recheckBad += r.RecheckBad
+		stepsChecked += r.StepsChecked
+		divergences += r.Divergences
+		for _, d := range r.DivergeAt {
+			if len(divergeAt) < 6 {
+				divergeAt = append(divergeAt, r.Name+": "+d)
+			}
+		}
 		if r.MaxDepth > maxDepth {
 			maxDepth = r.MaxDepth
 		}
@@ -791,8 +897,11 @@ func TestC08(t *testing.T) {
 		exhaustive = false
 		capsHit = append(capsHit, fmt.Sprintf("time budget %v: %d spaces not started (%s ...)", budget, len(skipped), skipped[0]))
 	}
-	if recheckBad > 0 {
+	if recheckBad > 0 || divergences > 0 {
 		nondet = true
+		for _, d := range divergeAt {
+			fmt.Printf("INFO replay divergence: %s\n", c08Short(d))
+		}
 	}
 
 	// ---- confirm candidates: 3 replays in fresh processes --------------------------
@@ -856,10 +965,61 @@ func TestC08(t *testing.T) {
 	cov["max_depth"] = maxDepth
 	cov["spaces"] = len(results)
 	cov["per_space"] = perSp
-	cov["outcome_classes"] = outcomes
 	cov["distinct_outcomes"] = len(outcomes)
+	{
+		// keep the evidence readable: the 120 most frequent classes, the rest summed
+		type kv struct {
+			k string
+			n int
+		}
+		var l []kv
+		for k, n := range outcomes {
+			l = append(l, kv{k, n})
+		}
+		sort.Slice(l, func(i, j int) bool {
+			if l[i].n != l[j].n {
+				return l[i].n > l[j].n
+			}
+			return l[i].k < l[j].k
+		})
+		oc := map[string]int{}
+		for i, e := range l {
+			if i < 120 {
+				oc[e.k] = e.n
+			} else {
+				oc["(other classes)"] += e.n
+			}
+		}
+		cov["outcome_classes"] = oc
+		// coarse view: per-payment result kinds x faults, always complete
+		coarse := map[string]int{}
+		for k, n := range outcomes {
+			var parts []string
+			for _, f := range strings.Fields(k) {
+				if i := strings.Index(f, ":"); i >= 0 && !strings.HasPrefix(f, "faults=") {
+					r := f[i+1:]
+					if j := strings.Index(r, ":"); j >= 0 {
+						r = r[:j]
+					}
+					if r == "" {
+						r = "no-result"
+					}
+					parts = append(parts, r)
+				} else {
+					parts = append(parts, f)
+				}
+			}
+			coarse[strings.Join(parts, " ")] += n
+		}
+		cov["outcome_classes_coarse"] = coarse
+	}
 	cov["in_process_replay_checks"] = recheck
-	cov["rule"] = "every schedule with at most Dev deviations from 'deliver the oldest message, tick when nothing is in flight' and at most Faults fault events (cut:AB, cut:BC, restart Bob) of every listed payment batch, executed on the real three-hop network inside a synctest bubble; an evaluation = one execution (a fresh network replaying an event list); distinct_nontrivial = distinct canonical quiescent states (channel commitments of all four ends, circuit counts, wires, payment and invoice states, forwarding-package progress) reached after at least one event, each of which had the per-state oracle clauses evaluated; terminal_executions had the conservation clauses evaluated"
+	cov["replayed_steps_key_checked"] = int(stepsChecked)
+	cov["replay_divergences"] = int(divergences)
+	if len(divergeAt) > 0 {
+		cov["replay_divergence_examples"] = divergeAt
+	}
+	cov["rule"] = "per space (payment batch + budgets, see per_space): every event schedule of the real three-hop network (inside a synctest bubble) with at most Dev schedule deviations (out-of-order delivery, early tick, early hold resolution, slow wire fz/un) and at most Faults fault events (cut:AB, cut:BC, restart Bob), at most Total of both, relative to the default 'deliver the oldest message, tick when nothing is in flight'; base = 1/1/1, deep = 2/2/2, product = one slow wire x one fault (sharded by wire and fault kind, shards share their default prefix so sums over shards count those states once per shard); an evaluation = one execution (a fresh network replaying an event list); distinct_nontrivial = distinct canonical quiescent states (commitments of all four channel ends, circuit counts, wires, payment and invoice states, forwarding-package progress, budgets used) reached after at least one event, summed over spaces, each of which had the per-state oracle clauses evaluated; terminal_executions had the conservation clauses evaluated"
 	sl := samples.List()
 	if len(sl) == 0 {
 		sl = []any{"none"}
@@ -873,6 +1033,12 @@ func TestC08(t *testing.T) {
 	code := run.Finish(cov)
 	if code == 0 && len(results) == 0 {
 		fmt.Println("no space was explored")
+		os.Exit(2)
+	}
+	if code == 0 && len(broken) > 0 {
+		// executions that died at harness level (fixture t.Fatal, worker crash) may hide
+		// violations: not a verdict
+		fmt.Printf("HARNESS-PROBLEM: %d executions/spaces ended in a harness-level failure, first: %s\n", len(broken), c08Short(broken[0]))
 		os.Exit(2)
 	}
 	if code != 0 {
